@@ -85,6 +85,12 @@ Plan generate(const std::string& prop, int tier, uint64_t batchSeed, uint64_t id
         cfg.set("horizon", r.pick<int64_t>({2000, 20000, 100000, 400000}));
         p.items.push_back(cfg);
         const bool sameWorkload = r.chance(1, 2);  // identical workloads on all threads: every access (also on rare paths) has a twin
+        {
+            // (instances engine, threads.cpp) how many frames neighbour instances decode in between: mostly none or a thousand,
+            // rarely past 2^16 / 2^17 (whatever is counted, aged or recycled process-wide gets its chance)
+            const uint64_t fl = r.below(40);
+            p.items.front().set("nbflood", fl < 20 ? 0 : fl < 34 ? static_cast<int64_t>(300 + r.below(3000)) : fl < 39 ? static_cast<int64_t>(66000 + r.below(6000)) : static_cast<int64_t>(132000 + r.below(10000)));
+        }
         if (r.chance(1, 2))
             p.items.front().set("shareinput", 1);  // equal receive buffers are ONE storage for all threads (sched.h, internInput)
         if (sameWorkload && r.chance(1, 3))
